@@ -297,7 +297,15 @@ class World(object):
                 if t is not None:
                     observed = i
                     repr(t)
-                    [repr(s) for s in t.subsections]
+
+                    def walk(sec):
+                        repr(sec)
+                        str(sec)
+
+                        for sub in getattr(sec, 'subsections', ()):
+                            walk(sub)
+
+                    walk(t)
         except Exception:
             # library errors are not what C18 judges
             pass
